@@ -121,6 +121,111 @@ pub open spec fn supported(u: TimeUnit) -> bool {
             r.0 * T::unit_spec().nanos() == this.0 * U::unit_spec().nanos(),                                           // #C16 finer_is_exact
 //@end
 
+// ---- time of day and durations (C16 NaT absorption, C17 exact shift / inverse law)
+// chrono::Duration is abstract (A-CHRONO): all tevec needs is its nanosecond count, None when it does not fit an i64
+#[verifier::external_body]
+pub struct Duration { _p: u8 }
+impl Duration {
+    pub uninterp spec fn nn(&self) -> Option<i64>;
+    #[verifier::external_body]
+    pub fn num_nanoseconds(&self) -> (r: Option<i64>)
+        ensures r == self.nn(),
+    { unimplemented!() }
+}
+pub struct TimeDelta { pub months: i32, pub inner: Duration }
+pub struct Time(pub i64);
+
+impl TimeDelta {
+//@fn name=is_nat crate=tea-time ctx="impl TimeDelta" props=C16
+//@sig pub const fn is_nat(&self) -> (r: bool)
+//@spec
+    ensures r == (self.months == i32::MIN)
+//@end
+//@fn name=is_not_nat crate=tea-time ctx="impl TimeDelta" props=C16
+//@sig pub const fn is_not_nat(&self) -> (r: bool)
+//@spec
+    ensures r == (self.months != i32::MIN)
+//@end
+}
+impl Time {
+//@fn name=is_nat crate=tea-time ctx="impl Time" nth=1 props=C16
+//@sig pub const fn is_nat(&self) -> (r: bool)
+//@spec
+    ensures r == (self.0 == i64::MIN)
+//@end
+//@fn name=is_not_nat crate=tea-time ctx="impl Time" nth=1 props=C16
+//@sig pub const fn is_not_nat(&self) -> (r: bool)
+//@spec
+    ensures r == (self.0 != i64::MIN)
+//@end
+//@fn name=nat crate=tea-time ctx="impl Time" nth=1 props=C16
+//@sig pub const fn nat() -> (r: Self)
+//@spec
+    ensures r.0 == i64::MIN
+//@end
+//@fn name=from_hms crate=tea-time ctx="impl Time" nth=1 props=C17 arith=C17
+//@sig pub const fn from_hms(hour: i64, min: i64, sec: i64) -> (r: Self)
+//@spec
+    requires 0 <= hour < 24, 0 <= min < 60, 0 <= sec < 60,
+    ensures r.0 == ((hour * 3600 + min * 60 + sec) * 1_000_000_000)         // #C17 components_to_nanos
+//@end
+//@fn name=from_hms_nano crate=tea-time ctx="impl Time" nth=1 props=C17 arith=C17
+//@sig pub const fn from_hms_nano(hour: i64, min: i64, sec: i64, nano: i64) -> (r: Self)
+//@spec
+    requires 0 <= hour < 24, 0 <= min < 60, 0 <= sec < 60, 0 <= nano < 1_000_000_000,
+    ensures r.0 == ((hour * 3600 + min * 60 + sec) * 1_000_000_000 + nano)   // #C17 components_to_nanos
+//@end
+//@fn name=from_hms_milli crate=tea-time ctx="impl Time" nth=1 props=C17 arith=C17
+//@sig pub const fn from_hms_milli(hour: i64, min: i64, sec: i64, milli: i64) -> (r: Self)
+//@spec
+    requires 0 <= hour < 24, 0 <= min < 60, 0 <= sec < 60, 0 <= milli < 1000,
+    ensures r.0 == ((hour * 3600 + min * 60 + sec) * 1_000_000_000 + milli * 1_000_000)   // #C17 components_to_nanos
+//@end
+//@fn name=from_hms_micro crate=tea-time ctx="impl Time" nth=1 props=C17 arith=C17
+//@sig pub const fn from_hms_micro(hour: i64, min: i64, sec: i64, micro: i64) -> (r: Self)
+//@spec
+    requires 0 <= hour < 24, 0 <= min < 60, 0 <= sec < 60, 0 <= micro < 1_000_000,
+    ensures r.0 == ((hour * 3600 + min * 60 + sec) * 1_000_000_000 + micro * 1000)   // #C17 components_to_nanos
+//@end
+}
+//@const crate=tea-time name=SECS_PER_MINUTE
+//@const crate=tea-time name=SECS_PER_HOUR
+
+// what `time (+|-) delta` must be, from the property: NaT absorbs; a month-free duration shifts exactly
+pub open spec fn time_shift_ok(t: Time, d: TimeDelta, sign: int, r: Time) -> bool {
+    &&& (t.0 == i64::MIN || d.months == i32::MIN) ==> r.0 == i64::MIN                                    // NaT operand -> NaT
+    &&& (t.0 != i64::MIN && d.months == 0 && d.inner.nn().is_some()) ==> r.0 == t.0 + sign * d.inner.nn().unwrap()
+}
+
+//@fn name=add crate=tea-time ctx="impl Add<TimeDelta> for Time" as=time_add props=C16,C17 arith=C17
+//@sig pub fn time_add(this: Time, rhs: TimeDelta) -> (r: Time)
+//@spec
+    requires
+        (this.0 != i64::MIN && rhs.months != i32::MIN && rhs.months != 0) ==> panic_allowed(),       // calendar months: documented panic
+        (this.0 != i64::MIN && rhs.months == 0 && rhs.inner.nn().is_some()) ==> i64::MIN < this.0 + rhs.inner.nn().unwrap() <= i64::MAX,   // within range
+    ensures
+        time_shift_ok(this, rhs, 1, r),          // #C16,C17 time_plus_duration
+//@end
+
+//@fn name=sub crate=tea-time ctx="impl Sub<TimeDelta> for Time" as=time_sub props=C16,C17 arith=C17
+//@sig pub fn time_sub(this: Time, rhs: TimeDelta) -> (r: Time)
+//@spec
+    requires
+        (this.0 != i64::MIN && rhs.months != i32::MIN && rhs.months != 0) ==> panic_allowed(),
+        (this.0 != i64::MIN && rhs.months == 0 && rhs.inner.nn().is_some()) ==> i64::MIN < this.0 - rhs.inner.nn().unwrap() <= i64::MAX,
+    ensures
+        time_shift_ok(this, rhs, -1, r),         // #C16,C17 time_minus_duration
+//@end
+
+// inverse law, over the two contracts only
+proof fn lemma_time_shift_inverse(t: Time, d: TimeDelta, a: Time, b: Time)       // #C17
+    requires
+        t.0 != i64::MIN, d.months == 0, d.inner.nn().is_some(),
+        time_shift_ok(t, d, 1, a), a.0 != i64::MIN, time_shift_ok(a, d, -1, b),
+    ensures b.0 == t.0,
+{
+}
+
 // finer and back is the identity (corollary of the two clauses above, stated over the contract only)
 proof fn lemma_finer_and_back(x: int, q: int, y: int, z: int)
     requires q >= 1, y == x * q, z * q <= y < (z + 1) * q,
